@@ -274,11 +274,12 @@ pub fn stage_run<F: Fl>(rid: u64, family: &str, seed: u64, a: &IMp, b: &IMp, op:
     out
 }
 
-pub fn rec_stages(kind_f32: bool, fams: &[&str], count: u64, seed: u64, kmax: i64, max_edges: usize, matrix_max: usize, rid0: u64) {
+pub fn rec_stages(kind_f32: bool, fams: &[&str], count: u64, seed: u64, kmax: i64, max_edges: usize, matrix_max: usize, rid0: u64, efrom: u64, estride: u64) {
     let o = ops::Opts { kmax, max_edges };
     let mut rid = rid0;
     for i in 0..count {
         let fam = fams[(i as usize) % fams.len()];
+        gen::ENUM_POS.store(efrom + (i / fams.len() as u64) * estride, std::sync::atomic::Ordering::SeqCst);
         let sd = seed.wrapping_mul(1_000_003).wrapping_add(i);
         let mut rng = Rng::new(sd);
         let (a, b) = loop {
